@@ -142,10 +142,6 @@ func (js *jobState) script(a *fakecql.Attempt) fakecql.Outcome {
 	}
 	g := &gen{r: rand.New(rand.NewSource(hutil.Seed()*7919 + p.x.Salt*31 + int64(a.N))), ver: a.Header.Version, thor: js.thor}
 	raw, err := g.responseBytes(p.x.Resp, a.Token, a.N, a.Header.StreamId, a.Conn.Compression)
-	if err == errNoRoundTrip {
-		g = &gen{r: rand.New(rand.NewSource(hutil.Seed()*7919 + p.x.Salt*31 + int64(a.N))), ver: a.Header.Version, thor: js.thor, compressible: true}
-		raw, err = g.responseBytes(p.x.Resp, a.Token, a.N, a.Header.StreamId, a.Conn.Compression)
-	}
 	p.mu.Lock()
 	defer p.mu.Unlock()
 	if err != nil {
@@ -414,7 +410,7 @@ func (js *jobState) flush(c *cqlclient.Client) {
 	js.flushSeq++
 	q := fmt.Sprintf("select * from ks.flush where k = 'tokflush%dx%d;'", js.j.Env.ID, js.flushSeq)
 	frm := frame.NewFrame(c.Version, int16(30000+js.flushSeq%2000), &message.Query{Query: q, Options: &message.QueryOptions{Consistency: primitive.ConsistencyLevelLocalOne}})
-	if b, err := encodeFrame(refCodec(""), frm); err == nil {
+	if b, _, err := encodeFrame("", frm); err == nil {
 		_ = c.SendBytes(b, int(frm.Header.StreamId), "QUERY", "", "flush")
 	}
 }
@@ -449,33 +445,15 @@ func (js *jobState) runOnce(x *exchange, retry int) *obs {
 	}
 	tok := fmt.Sprintf("tok%dx%dr%d;", js.j.Env.ID, x.I, retry)
 	o.Tok = tok
-	var frm *frame.Frame
-	var sent []byte
-	var stream int16
-	for pass := 0; ; pass++ {
-		g := &gen{r: rand.New(rand.NewSource(hutil.Seed()*1000003 + x.Salt)), ver: versions[x.Ver], thor: js.thor, prepID: js.prepID, compressible: pass > 0}
-		stream = int16(g.r.Intn(16000))
-		if frm, err = g.requestFrame(x, tok, stream); err != nil {
-			return fail("generr", "request: "+err.Error())
-		}
-		if sent, err = encodeFrame(refCodec(x.Comp), frm); err != nil {
-			return fail("generr", "encode: "+err.Error())
-		}
-		if !x.Compressed {
-			break
-		}
-		ph := *frm.Header
-		ph.Flags = ph.Flags.Remove(primitive.HeaderFlagCompressed)
-		var pb bytes.Buffer
-		if err := refCodec("").EncodeBody(&ph, frm.Body, &pb); err != nil {
-			return fail("generr", "encode plain: "+err.Error())
-		}
-		if roundTrips(x.Comp, sent[9:], pb.Bytes()) {
-			break
-		}
-		if pass > 0 {
-			return fail("generr", "compressed body does not round-trip through the reference compressor")
-		}
+	g := &gen{r: rand.New(rand.NewSource(hutil.Seed()*1000003 + x.Salt)), ver: versions[x.Ver], thor: js.thor, prepID: js.prepID}
+	stream := int16(g.r.Intn(16000))
+	frm, err := g.requestFrame(x, tok, stream)
+	if err != nil {
+		return fail("generr", "request: "+err.Error())
+	}
+	sent, plainSent, err := encodeFrame(x.Comp, frm)
+	if err != nil {
+		return fail("generr", "encode: "+err.Error())
 	}
 	o.Form = x.form
 	sentHdr := *frm.Header
@@ -484,11 +462,7 @@ func (js *jobState) runOnce(x *exchange, retry int) *obs {
 	// the uncompressed encoding of the body, decoded again: the normal form compared field by field
 	plainHdr := sentHdr
 	plainHdr.Flags = plainHdr.Flags.Remove(primitive.HeaderFlagCompressed)
-	var plain bytes.Buffer
-	if err := refCodec("").EncodeBody(&plainHdr, frm.Body, &plain); err != nil {
-		return fail("generr", "encode plain: "+err.Error())
-	}
-	sentDec, trail, err := decodePlain(sentHdr, plain.Bytes())
+	sentDec, trail, err := decodePlain(sentHdr, plainSent)
 	if err != nil || trail != 0 {
 		return fail("generr", fmt.Sprintf("generator produced a body the reference codec does not read back: %v trailing=%d", err, trail))
 	}
